@@ -443,3 +443,150 @@ def check_onerror(cid, cfg, *xs):
             mon.violation.startswith('stack depth'):
         return 0
     return 1
+
+
+# ---------------------------------------------------------------------
+# C11: the debug map
+# ---------------------------------------------------------------------
+_struct_cache = {}
+
+
+def dbgmap_structure(module, text):
+    """Concrete structural checks of a module's debug map.  Returns None or
+    a description of the first violation."""
+    di = module.debug_info
+    if di is None:
+        return 'no debug info'
+    starts, code_len, _, frame_at = _module_static(module)
+    bounds = set(starts) | {code_len}
+    recs = list(di.stmts)
+    for r in recs:
+        if r.start_offset not in bounds or r.end_offset not in bounds:
+            return 'record %s [%d,%d) not on instruction boundaries' % (
+                type(r.node).__name__, r.start_offset, r.end_offset)
+        if r.end_offset < r.start_offset:
+            return 'negative range'
+    ne = [r for r in recs if r.end_offset > r.start_offset]
+    for i, a in enumerate(ne):
+        for b in ne[i + 1:]:
+            lo = max(a.start_offset, b.start_offset)
+            hi = min(a.end_offset, b.end_offset)
+            if lo < hi:
+                inside = (a.start_offset <= b.start_offset and
+                          b.end_offset <= a.end_offset) or \
+                         (b.start_offset <= a.start_offset and
+                          a.end_offset <= b.end_offset)
+                if not inside:
+                    return 'ranges of %s and %s overlap without nesting' % (
+                        type(a.node).__name__, type(b.node).__name__)
+    # every instruction of a routine body is attributed
+    from qvm.instrs import op_code_to_instr
+    code = module.code
+    # main: [first frame + size, its final ret); routines: whole range
+    addrs = sorted(starts)
+    ops = {}
+    for a in addrs:
+        ops[a] = op_code_to_instr[code[a]].op
+    frames = sorted(frame_at)
+    if not frames:
+        return 'no frame instruction'
+    routine_ranges = []
+    for k, f in enumerate(frames):
+        end = frames[k + 1] if k + 1 < len(frames) else code_len
+        routine_ranges.append((f, end))
+    lines = text.split('\n')
+    for k, (f, end) in enumerate(routine_ranges):
+        body = [a for a in addrs if f <= a < end]
+        if k == 0:
+            # the main routine is not a statement: its frame instruction
+            # and its final ret belong to no statement
+            body = [a for a in body if ops[a] != 'frame']
+            while body and ops[body[-1]] == 'ret':
+                body.pop()
+                break
+        for a in body:
+            cover = [r for r in ne if r.start_offset <= a < r.end_offset]
+            if not cover:
+                return 'instruction %s at %d belongs to no statement' % (
+                    ops[a], a)
+            inner = min(cover, key=lambda r: r.end_offset - r.start_offset)
+            same = [r for r in cover
+                    if r.end_offset - r.start_offset ==
+                    inner.end_offset - inner.start_offset]
+            # (a CASE statement and its only clause cover the same range;
+            # both name the same source line)
+            if len(same) > 1 and any(
+                    x.source_start_line != inner.source_start_line
+                    for x in same):
+                return 'two innermost statements at %d' % a
+            ln = inner.source_start_line
+            if ln is None or not (1 <= ln <= len(lines)):
+                return 'bad line %r at %d' % (ln, a)
+            extract = di.source_code[inner.source_start_offset:
+                                     inner.source_end_offset]
+            if extract.strip() == '' or \
+                    extract.strip().split('\n')[0] not in lines[ln - 1]:
+                return 'extract %r is not on line %d' % (extract, ln)
+    # routine records
+    for name, rr in di.routines.items():
+        if rr.start_offset not in frame_at:
+            return 'routine %s does not start at its frame' % name
+        nxt = [f for f in frames if f > rr.start_offset]
+        want_end = nxt[0] if nxt else code_len
+        if rr.end_offset != want_end:
+            return 'routine %s ends at %d, expected %d' % (
+                name, rr.end_offset, want_end)
+    return None
+
+
+def check_dbgmap(cid, cfg, *xs):
+    """Structure (concrete) + attribution of every device interaction and
+    of the failing statement to the spec statement's source line."""
+    from crosshair.tracers import NoTracing
+    cell = CATALOG[cid]
+    opt, dbg = CONFIGS[cfg]
+    _, _, module = compile_program(cell.text, opt, dbg)
+    key = (cid, cfg)
+    with NoTracing():
+        if key not in _struct_cache:
+            _struct_cache[key] = dbgmap_structure(module, cell.text)
+    if _struct_cache[key] is not None:
+        return 0
+    io_lines = []
+
+    def per_tick(cpu, ticks):
+        with NoTracing():
+            prev = cpu.prev_pc
+            if module.code[prev] == 27:         # io
+                rec = module.debug_info.find_stmt(prev, cpu)
+                io_lines.append((len(cpu.devices['terminal'].impl.trace),
+                                 rec.source_start_line if rec else None))
+
+    trace, out, machine = run_impl(cell, cfg, xs, per_tick=per_tick)
+    rtrace, res, it = run_ref(cell, xs)
+    if not outcome_matches(out, res) or not trace_equal(trace, rtrace):
+        return 2          # behaviour itself is C01's subject
+    # line of each trace entry according to the debug map
+    impl_lines = [None] * len(trace)
+    prev_n = 0
+    for n_after, ln in io_lines:
+        for k in range(prev_n, min(n_after, len(trace))):
+            impl_lines[k] = ln
+        prev_n = n_after
+    for k in range(len(trace)):
+        if trace[k][0] == 'pcspkr':
+            continue
+        if impl_lines[k] != rtrace.lines[k]:
+            return 0
+    if res[0] == 'error':
+        rec = module.debug_info.find_stmt(out.trapped_addr, machine.cpu)
+        if rec is None or rec.source_start_line != it.err_line:
+            return 0
+    return 1
+
+
+def dbgmap_reason(cid, cfg):
+    cell = CATALOG[cid]
+    opt, dbg = CONFIGS[cfg]
+    _, _, module = compile_program(cell.text, opt, dbg)
+    return dbgmap_structure(module, cell.text)
